@@ -90,7 +90,7 @@ class DatasetBuilder:
             name._ensure_loaded()
             name = name._data
         if isinstance(name, DataContainer):
-            self.schema = name.schema.model_copy()
+            self.schema = name.schema.model_copy(deep=True)
             self._tables = {n: t for (n, t) in name.tables.items()}
             self._indexes = {
                 n: _id_index(name.tables[n].column(id_col_name(n)))
@@ -951,7 +951,7 @@ class DatasetBuilder:
             else:
                 tables[n] = t
 
-        return DataContainer(self.schema.model_copy(), tables)
+        return DataContainer(self.schema.model_copy(deep=True), tables)
 
     def save(self, path: str | PathLike[str]):
         """
